@@ -58,6 +58,14 @@ def mirror_pairs(tier):
                 a = lattice.mk(g, orth, opt=oa, tags=["mirrorA"])
                 b = lattice.mk(g, orth, opt=ob, mirror=True, tags=["mirrorB"])
                 out.append((a, b, "%s/%s/Nfine=%d" % (g, "orth" if orth else "nonorth", nf)))
+    # per-leg target spacings that differ between the inner and the outer leg (lower <-> upper
+    # option names exchanged for the mirror image)
+    tl = dict(target_inner_lower_poloidal_spacing_length=0.15, target_outer_lower_poloidal_spacing_length=0.45,
+              finecontour_Nfine=50)
+    for orth in (True, False):
+        a = lattice.mk("lsn", orth, opt=tl, tags=["mirrorA"])
+        b = lattice.mk("lsn", orth, opt={SWAP.get(k, k): v for k, v in tl.items()}, mirror=True, tags=["mirrorB"])
+        out.append((a, b, "lsn/%s/per-leg target spacing" % ("orth" if orth else "nonorth")))
     # non-orthogonal spacing ranges that differ between the private-flux and the SOL side: the
     # X.wall legs of one image are the wall.X legs of the other
     non = dict(nonorthogonal_target_all_poloidal_spacing_range_inner=0.4,
@@ -177,6 +185,14 @@ def reversal_members():
         base=mk("ldn", True, opt=o3),
         sigma=mk("ldn", True, opt=o3, sigma=-1.0, tags=["sigma"]),
         reverse_current=mk("ldn", True, opt=dict(o3, reverse_current=True), tags=["signs"]),
+    )
+    # unequal radial cell widths in core, SOL and private flux region: the separatrix spacing is
+    # the smallest of the three in magnitude whatever the sign of psi
+    ow = dict(nx_core=3, nx_sol=4, psinorm_sol=1.2, psinorm_pf=0.95)
+    out["orth-unequal-radial-widths"] = dict(
+        base=mk("lsn", True, opt=ow),
+        sigma=mk("lsn", True, opt=ow, sigma=-1.0, tags=["sigma"]),
+        reverse_current=mk("lsn", True, opt=dict(ow, reverse_current=True), tags=["signs"]),
     )
     for orth in (True, False):
         m = "orth" if orth else "nonorth"
